@@ -116,7 +116,9 @@ fn run_case<G: AffineRepr>(env: &Env<G>, c: &Case) -> CaseOut {
             }
         }
         if !missing.is_empty() {
-            o.violate("rng-built-before-statement", format!("the prover RNG was derived before commitments {:?} were absorbed", missing), ctxj(json!({})));
+            // recorded, not asserted: the property demands keying with the external randomness and
+            // the blinding factors, not a particular position of build_rng in the transcript
+            o.count("note: prover RNG derived before some commitments were absorbed", 1);
         }
         let rekeys: Vec<&Vec<u8>> = po.log.iter().filter_map(|e| if let Event::Rekey { r, witness, .. } = e { if *r == rid { Some(witness) } else { None } } else { None }).collect();
         let mut absent = vec![];
